@@ -32,6 +32,8 @@ def _place_expr(env, place):
             if variant is not None:
                 e = ("payload", e, variant, name)
                 variant = None
+            elif e[0] == "agg" and name.isdigit() and int(name) < len(e[3]):
+                e = e[3][int(name)]              # component of a tuple or captured variable of a closure
             else:
                 e = ("field", e, name)
             continue
@@ -72,11 +74,36 @@ def _rvalue(env, rv):
     raise NotAnalysable("rvalue %s" % r)
 
 
-def build_tree(f, transparent_calls=(), max_nodes=4000):
-    """decision tree of function f: ("switch", expr, {value: subtree}, otherwise) | ("ret", expr)"""
+OPTION_TESTS = {"is_some_and": (0, None), "is_none_or": (1, None)}   # name -> (result on None, -)
+
+
+def build_tree(f, transparent_calls=(), max_nodes=4000, prog=None, expand=()):
+    """decision tree of function f: ("switch", expr, {value: subtree}, otherwise) | ("ret", expr).
+    With `prog`, closures called directly or handed to Option::is_some_and / is_none_or are unfolded in place (the Option
+    test becomes a discriminant node, the closure body is walked with the payload as its argument), and so is every
+    crate function named in `expand`."""
     count = [0]
 
-    def walk(b, env, path):
+    def closure_of(call_term, fn):
+        if prog is None:
+            return None
+        from . import core
+        c = core.Call(fn, 0, call_term)
+        tg = [t for t in prog.targets(c) if t in prog.raw_fns and prog.raw_fns[t].kind == "closure"]
+        return prog.raw_fns[tg[0]] if len(tg) == 1 else None
+
+    def enter(g, args, stack, cont, tupled=False):
+        """walk g with its parameters bound to args; cont(result expr) builds the rest of the caller"""
+        if g.id in stack or len(stack) > 4:
+            raise NotAnalysable("recursive expansion of %s" % g.id)
+        if tupled and len(args) == 2 and isinstance(args[1], tuple) and args[1][0] == "agg" and len(args[1][3]) == g.nargs - 1:
+            args = (args[0],) + tuple(args[1][3])       # Fn::call(closure, (a, b)) -> closure body (closure, a, b)
+        if len(args) != g.nargs:
+            raise NotAnalysable("arity of %s" % g.id)
+        genv = {i + 1: a for i, a in enumerate(args)}
+        return walk(g, 0, genv, frozenset(), stack + (g.id,), cont)
+
+    def walk(f, b, env, path, stack, cont):
         count[0] += 1
         if count[0] > max_nodes:
             raise NotAnalysable("too many paths")
@@ -98,15 +125,15 @@ def build_tree(f, transparent_calls=(), max_nodes=4000):
         t = blk["term"]
         k = t["t"]
         if k == "goto":
-            return walk(t["to"], env, path)
+            return walk(f, t["to"], env, path, stack, cont)
         if k == "ret":
-            return ("ret", env.get(0, ("local", 0)))
+            return cont(env.get(0, ("local", 0)))
         if k == "switch":
             d = _operand(env, t["o"])
             kids = {}
             for v, tgt in t["targets"]:
-                kids[v] = walk(tgt, env, path)
-            return ("switch", d, kids, walk(t["otherwise"], env, path))
+                kids[v] = walk(f, tgt, env, path, stack, cont)
+            return ("switch", d, kids, walk(f, t["otherwise"], env, path, stack, cont))
         if k == "call":
             fn = t["fn"]
             callee = fn.get("res") or fn.get("def") or "?"
@@ -114,18 +141,33 @@ def build_tree(f, transparent_calls=(), max_nodes=4000):
             if t.get("to") is None:
                 return ("diverge", callee)
             short = callee.rsplit("::", 1)[-1]
+
+            def after(r, env=env, t=t, f=f, path=path):
+                e2 = dict(env)
+                e2[t["dst"][0]] = r
+                return walk(f, t["to"], e2, path, stack, cont)
+            if len(t["dst"]) == 1 and prog is not None:
+                g = prog.raw_fns.get(callee)
+                if g is not None and (g.kind == "closure" or callee in expand) and g.id not in stack:
+                    return enter(g, args, stack, after, tupled=(g.kind == "closure"))
+                if callee.startswith("std::option::Option") and short in OPTION_TESTS and len(args) == 2:
+                    clo = closure_of(t, f)
+                    if clo is not None:
+                        on_none = ("const", OPTION_TESTS[short][0])
+                        some = enter(clo, (args[1], ("payload", args[0], "Some", "0")), stack, after)
+                        return ("switch", ("discr", args[0]), {0: after(on_none), 1: some}, ("unreach",))
             if callee in transparent_calls or short in ("deref", "as_ref", "borrow", "clone", "into", "from"):
                 env[t["dst"][0]] = args[0] if args else ("call", callee, args)
             else:
                 env[t["dst"][0]] = ("call", callee, args)
-            return walk(t["to"], env, path)
+            return walk(f, t["to"], env, path, stack, cont)
         if k in ("assert", "drop"):
-            return walk(t["to"], env, path)
+            return walk(f, t["to"], env, path, stack, cont)
         if k == "unreach":
             return ("unreach",)
         raise NotAnalysable("terminator %s" % k)
 
-    return walk(0, {}, frozenset())
+    return walk(f, 0, {}, frozenset(), (f.id,), lambda e: ("ret", e))
 
 
 # ---- atoms -------------------------------------------------------------------------------------
